@@ -1,11 +1,13 @@
 import Props.C11
 import Lemmas.Lookup
+import Lemmas.HelpBytes
 /-!
 # C18 — generated help lists every option, alias, argument and command exactly once
 
 Theorems are about the lists the text is rendered from (`helpOptions`, `requiredOpts`, `normalOpts`,
-`helpCommands`) and about the rendering functions of one entry; byte-for-byte equality of the whole
-text with the real help is what the correspondence check establishes.
+`helpCommands`), about the rendering functions of one entry, and (last section) about the bytes of the rendered
+text: it contains the complete entry of every option in the right block, every synopsis item and every command
+line.  Byte-for-byte equality of the model's text with the real help is what the correspondence check establishes.
 -/
 namespace GoModel
 
@@ -152,9 +154,81 @@ theorem same_text_option_and_command (s s2 : PState) (rem : List Str)
   rw [hP] at hparent
   simp [hparent]
 
+/-! ## the bytes of the help text -/
+
+/-- **Every option available at the level has its complete entry in the help text, in the right block.**
+`o ∈ helpOptions` (by `mem_helpOptions`: exactly the own and inherited options of the level, aliases filtered
+out): the default help text contains, contiguously, `helpString` of the option — its aliases joined by `|`
+(`synopsis_lists_aliases`), argument name, description, and the `(default: …, env: …)` tail of `helpTail_default` /
+`helpTail_required` — inside the REQUIRED PARAMETERS block exactly when the option is required, inside the
+OPTIONS block otherwise. -/
+theorem option_entry_in_help_text (P : Prog) (n o : Nat) (ho : o ∈ helpOptions P (P.node n)) :
+    helpString (P.opt o) (helpFactor P (P.node n)) <:+: helpOutput ext P n [] ∧
+    ((P.opt o).required = true →
+      helpString (P.opt o) (helpFactor P (P.node n)) <:+: requiredBlock ext P (P.node n) ∧
+      requiredBlock ext P (P.node n) <:+: helpOutput ext P n []) ∧
+    ((P.opt o).required = false →
+      helpString (P.opt o) (helpFactor P (P.node n)) <:+: optionsBlock ext P (P.node n) ∧
+      optionsBlock ext P (P.node n) <:+: helpOutput ext P n []) := by
+  have hreq : (P.opt o).required = true →
+      helpString (P.opt o) (helpFactor P (P.node n)) <:+: requiredBlock ext P (P.node n) ∧
+      requiredBlock ext P (P.node n) <:+: helpOutput ext P n [] := by
+    intro hr
+    have hm : o ∈ requiredOpts P (P.node n) := (mem_requiredOpts P _ o).mpr ⟨ho, hr⟩
+    have hne : requiredOpts P (P.node n) ≠ [] := by intro e; rw [e] at hm; cases hm
+    exact ⟨entry_in_requiredBlock ext P _ o hm,
+      (requiredBlock_in_list ext P _ hne).trans (optionList_in_default ext P n)⟩
+  have hnorm : (P.opt o).required = false →
+      helpString (P.opt o) (helpFactor P (P.node n)) <:+: optionsBlock ext P (P.node n) ∧
+      optionsBlock ext P (P.node n) <:+: helpOutput ext P n [] := by
+    intro hr
+    have hm : o ∈ normalOpts P (P.node n) := (mem_normalOpts P _ o).mpr ⟨ho, hr⟩
+    have hne : normalOpts P (P.node n) ≠ [] := by intro e; rw [e] at hm; cases hm
+    exact ⟨entry_in_optionsBlock ext P _ o hm,
+      (optionsBlock_in_list ext P _ hne).trans (optionList_in_default ext P n)⟩
+  refine ⟨?_, hreq, hnorm⟩
+  cases hr : (P.opt o).required with
+  | true => exact (hreq hr).1.trans (hreq hr).2
+  | false => exact (hnorm hr).1.trans (hnorm hr).2
+
+/-- **Every option of the level is mentioned in the synopsis of the help text** — unbracketed when required
+(`optSynopsis_required`), bracketed otherwise. -/
+theorem option_in_synopsis_text (P : Prog) (n o : Nat) (ho : o ∈ helpOptions P (P.node n)) :
+    optSynopsis (P.opt o) <:+: helpOutput ext P n [] := by
+  have hm : o ∈ requiredOpts P (P.node n) ++ normalOpts P (P.node n) :=
+    (options_sections_perm P (P.node n)).mem_iff.mpr ho
+  exact (synopsis_item_in_text ext P n o hm).trans (synopsis_in_default ext P n)
+
+/-- **Every sub-command except the help command has its line** (registered name, padded, description) **in the
+help text.** -/
+theorem command_line_in_help_text (P : Prog) (n : Nat) (k : Str) (c : Nat)
+    (h : (k, c) ∈ (P.node n).cmds) (hk : k ≠ (P.node n).helpName) :
+    commandLine P (P.node n) k <:+: helpOutput ext P n [] := by
+  have hm : (k, c) ∈ helpCommands (P.node n) := (mem_helpCommands _ k c).mpr ⟨h, hk⟩
+  have hs : k ∈ sortStrs ((helpCommands (P.node n)).map (·.1)) :=
+    (mem_sortStrs _ k).mpr (List.mem_map.mpr ⟨(k, c), hm, rfl⟩)
+  have h1 := commandLine_in_list ext P (P.node n) k hs
+  have hne : (helpCommandList ext P (P.node n)).isEmpty = false := by
+    obtain ⟨s, t, e⟩ := h1
+    cases hl : helpCommandList ext P (P.node n) with
+    | nil =>
+      rw [hl] at e
+      have hlen := congrArg List.length e
+      simp only [List.length_append, List.length_nil] at hlen
+      have h0 : (commandLine P (P.node n) k).length = 0 := by omega
+      simp [commandLine, indent4, spaces] at h0
+    | cons x xs => rfl
+  have h2 := section_in_default ext P n .commandList (by simp [defaultSections])
+  simp only [helpSection, hne, Bool.false_eq_true, ↓reduceIte] at h2
+  exact h1.trans ((infix_append_l (List.infix_refl _)).trans h2)
+
 /-! Non-vacuity: the demo program's root help lists each option once, `cmd` once, not `help`. -/
 example : (helpOptions Demo.prog (Demo.prog.node 0)).length = 7 ∧
           (helpCommands (Demo.prog.node 0)).length = 1 ∧
           (requiredOpts Demo.prog (Demo.prog.node 0)) = [] := by decide
+
+-- the entry of `name` (option 0, alias n) as it stands in the demo program's help text
+example : helpString (Demo.prog.opt 0) (helpFactor Demo.prog (Demo.prog.node 0)) =
+    b "    --name|-n <string>    (default: \"def\")\n\n" := by decide
 
 end GoModel
